@@ -21,6 +21,7 @@ import KyupyVerif.Drv.Callback
 import KyupyVerif.Drv.HeapHist
 import KyupyVerif.Drv.Accum
 import KyupyVerif.Drv.SdfWave
+import KyupyVerif.Drv.TechCount
 /-! Stateless driver extensions: each module `KyupyVerif/Drv/<Name>.lean` defines
 `handle : String → List String → Option String` (command word, remaining tokens → answer, or `none`
 when the command is not its own) and is listed in `extHandlers` below. -/
@@ -49,7 +50,8 @@ def extHandlers : List (String → List String → Option String) := [
   KV.Drv.Callback.handle,
   KV.Drv.HeapHist.handle,
   KV.Drv.Accum.handle,
-  KV.Drv.SdfWave.handle
+  KV.Drv.SdfWave.handle,
+  KV.Drv.TechCount.handle
 ]
 
 def tryExt (cmd : String) (args : List String) : Option String :=
